@@ -7,10 +7,10 @@ use crate::tags::{self, Tags};
 use crate::Program;
 use crate::ProgramRef;
 use deno_ast::swc::ast::{
-  ArrowExpr, BlockStmtOrExpr, CallExpr, Callee, ClassMethod, Expr,
+  ArrowExpr, BlockStmtOrExpr, CallExpr, Callee, ClassMethod, Constructor, Expr,
   ExprOrSpread, FnDecl, FnExpr, GetterProp, MemberExpr, MemberProp, MethodKind,
   MethodProp, ObjectLit, OptCall, OptChainBase, PrivateMethod, Prop, PropName,
-  PropOrSpread, ReturnStmt,
+  PropOrSpread, ReturnStmt, SetterProp,
 };
 use deno_ast::swc::ecma_visit::noop_visit_type;
 use deno_ast::swc::ecma_visit::Visit;
@@ -338,6 +338,20 @@ impl Visit for GetterReturnVisitor<'_, '_> {
       if let Some(body) = &getter_prop.body {
         a.check_getter(body.range(), getter_prop.range());
       }
+    });
+  }
+
+  fn visit_setter_prop(&mut self, setter_prop: &SetterProp) {
+    // return statements inside a setter don't belong to an enclosing getter
+    self.visit_getter_or_function(|a| {
+      setter_prop.visit_children_with(a);
+    });
+  }
+
+  fn visit_constructor(&mut self, constructor: &Constructor) {
+    // return statements inside a constructor don't belong to an enclosing getter
+    self.visit_getter_or_function(|a| {
+      constructor.visit_children_with(a);
     });
   }
 
